@@ -389,6 +389,35 @@ Proof.
       destruct (IH Hin) as [o' [H1 H2]]. exists o'. split; [right; auto|auto].
 Qed.
 
+(* the same with the reason spelled out: no published pricing, or the payer's energy is below the pending cost (as it
+   stood when the object's turn came in the loop, pool q) plus the object's cost *)
+Theorem publish_drop_energy energy : forall cands p h,
+    In h (snd (publish p energy cands)) ->
+    exists o q, In o cands /\ hash o = h /\ executable o = false /\
+      (price o = None \/
+       exists pc, price o = Some pc /\ energy (payer pc) < aget (cost q) (payer pc) + pcost pc).
+Proof.
+  induction cands as [|o t IH]; intros p h Hin; cbn [publish] in Hin; [destruct Hin|].
+  destruct (executable o) eqn:Ee.
+  - specialize (IH p h). destruct (publish p energy t) as [[p' pub] bad]. cbn in *.
+    destruct (IH Hin) as [o' [q [H1 H2]]]. exists o', q. split; [right; auto|auto].
+  - destruct (price o) as [pc|] eqn:Ep.
+    + destruct (energy (payer pc) <? aget (cost p) (payer pc) + pcost pc) eqn:El.
+      * specialize (IH p h). destruct (publish p energy t) as [[p' pub] bad]. cbn in *.
+        destruct Hin as [<-|Hin].
+        -- exists o, p. split; [left; auto|]. split; auto. split; auto. right. exists pc. split; auto.
+           apply N.ltb_lt in El. auto.
+        -- destruct (IH Hin) as [o' [q [H1 H2]]]. exists o', q. split; [right; auto|auto].
+      * destruct (promote p (hash o) (oid o)) as [p1 ok]. destruct ok.
+        -- specialize (IH p1 h). destruct (publish p1 energy t) as [[p' pub] bad]. cbn in *.
+           destruct (IH Hin) as [o' [q [H1 H2]]]. exists o', q. split; [right; auto|auto].
+        -- destruct (IH p1 h Hin) as [o' [q [H1 H2]]]. exists o', q. split; [right; auto|auto].
+    + specialize (IH p h). destruct (publish p energy t) as [[p' pub] bad]. cbn in *.
+      destruct Hin as [<-|Hin].
+      * exists o, p. split; [left; auto|]. split; auto.
+      * destruct (IH Hin) as [o' [q [H1 H2]]]. exists o', q. split; [right; auto|auto].
+Qed.
+
 (* ---------------- finding F12: promote before the repair (presence tested by hash only) *)
 Lemma promote_unguarded_same p a :
   (forall o, find_obj (hash a) (objs p) = Some o -> oid o = oid a) ->
